@@ -104,7 +104,7 @@ Qed.
 Lemma LI_sess_inv s : LI s -> sess_inv s.
 Proof.
   intros (W & _). destruct (winv_sessdefs _ _ _ W) as (Hp & Hc & Hn & Hf).
-  split; [exact Hp|]. split; [exact Hc|]. split; [exact Hn | apply fresh_from_0; exact Hf].
+  split; [exact Hp|]. split; [exact Hc|]. split; [exact Hn | apply (proj1 (fresh_from_0 s)); exact Hf].
 Qed.
 
 (* PD's ref_wf (on L) from the store-side statement and Kcs *)
@@ -127,7 +127,7 @@ Proof.
   { split; [apply inv_set_now; exact W|]. split; [eapply Kcs_same; [| | |exact K]; reflexivity|].
     split; [intros d' k Hin; exact (P d' k Hin) | eapply Q0_same; [| | |exact Hq]; reflexivity]. }
   destruct (fire_due_G Q0 FOK0 Q0_fire _ _ G0 Logic.I) as (G1 & _).
-  eapply G_GW'; [exact Q0_qt | exact G1].
+  exact (G_GW' _ _ _ G1).
 Qed.
 
 Lemma LI_step_cfg w c : LI (w_st w) -> LI (w_st (fst (step w (HSetCfg c)))).
@@ -174,3 +174,126 @@ Proof. intros Hff Hcf. apply LI_after; [apply LI_init | exact Hff | exact Hcf]. 
 (* ref_wf in every state reachable by a fault-free, crash-free history *)
 Theorem ref_wf_hist c hs : Forall ff_hop hs -> Forall crash_free hs -> RotateLaws4.ref_wf (w_st (reach c hs)).
 Proof. intros Hff Hcf. apply LI_ref_wf. apply LI_reach; assumption. Qed.
+
+(* ------------------------------------------- ERefLoop is unreachable *)
+
+Lemma RWs_qt s s' : qt s s' -> RWs s -> RWs s'.
+Proof. intros Qt R k x H. rewrite (qt_sref _ _ Qt) in H. rewrite (qt_supply _ _ Qt). exact (R k x H). Qed.
+
+Lemma start_none_no_loop s q cks s' res cks' : ffnd s ->
+  start_none s q cks = (s', res, cks') -> res <> Err ERefLoop.
+Proof.
+  intros F E. unfold start_none in E. destruct (q_create q).
+  - rewrite create_session_ff in E by exact F. injection E as _ <- _. discriminate.
+  - injection E as _ <- _. discriminate.
+Qed.
+
+Lemma start_no_loop base s q : inv 0 base NX ND s -> Kcs s -> RWs s ->
+  forall s' res cks, start s q = (s', res, cks) -> res <> Err ERefLoop.
+Proof.
+  intros I K R s' res cks E. rewrite start_eq in E.
+  destruct (q_cookie q) as [|k|n]; try (eapply start_none_no_loop; [eapply inv_ffnd; exact I | exact E]).
+  destruct (cache_get_inv _ _ _ _ _ k I) as (s1 & r & E1 & I1 & Hr).
+  destruct (cache_get_qt _ _ _ _ k I K) as (Q1 & K1 & Hobj). rewrite E1 in *. cbn [fst snd] in *.
+  assert (F1 : ffnd s1) by (eapply inv_ffnd; exact I1). assert (Hp1 : plan s1 = []) by apply F1.
+  destruct r as [o|]; [|eapply start_none_no_loop; [exact F1 | exact E]].
+  destruct Hr as [_ [ob (Ho & _ & _ & _)]]. destruct (Hobj o eq_refl) as (ob' & Ho' & Hid & Hs).
+  rewrite Ho in Ho'. injection Ho' as <-. rewrite Ho in E.
+  set (c := conf s) in *.
+  destruct (rec_valid c (now s1) q (o_rec ob)) eqn:Hv.
+  - destruct (r_ref (o_rec ob)) as [t|] eqn:Href.
+    + destruct (sat_add (c_idexpiry c) (c_grace c) <=? since (r_created (o_rec ob)) (now s1))%Z eqn:Hb.
+      * rewrite sf_backstop in E; [| exact Hp1 | exact Hv | unfold isref; rewrite Href; reflexivity | exact Hb].
+        injection E as _ <- _. discriminate.
+      * rewrite (sf_ref _ _ _ _ _ _ _ t Hv Href Hb) in E.
+        assert (Hnl : snd (follow (S (N.to_nat (supply s1))) s1 o) <> Err ERefLoop).
+        { destruct (inv_sess_inv _ _ I1) as (_ & Hcok & [Hndc _] & _).
+          apply (RotateLaws4.follow_no_loop _ s1 o ob Hp1 Hcok Hndc).
+          - apply Kcs_RWs_ref_wf; [exact K1 | eapply RWs_qt; eassumption].
+          - exact Ho.
+          - intros t' Ht'. rewrite Href in Ht'. injection Ht' as <-.
+            destruct (RWs_qt _ _ Q1 R k t) as (m & -> & Hm & _); [rewrite Hs; reflexivity|].
+            exists m. split; [reflexivity|]. split; [exact Hm | lia]. }
+        destruct (follow _ s1 o) as [s2 fr]. cbn [snd] in Hnl.
+        destruct fr as [o'|e|e]; injection E as _ <- _; [discriminate | intro Hx; apply Hnl; injection Hx as ->; reflexivity | discriminate].
+    + destruct (c_idexpiry c <=? since (r_created (o_rec ob)) (now s1))%Z eqn:Ha.
+      * rewrite (sf_rotate _ _ _ _ _ _ _ F1 Ho Hv Href Ha) in E. injection E as _ <- _. discriminate.
+      * destruct (sat_add (c_idexpiry c) (c_grace c) <=? since (r_created (o_rec ob)) (now s1))%Z eqn:Hb.
+        -- rewrite sf_backstop in E; [| exact Hp1 | exact Hv | rewrite Ha; apply andb_false_r | exact Hb].
+           injection E as _ <- _. discriminate.
+        -- rewrite (sf_plain _ _ _ _ _ _ _ Hv Href Ha Hb) in E. injection E as _ <- _. discriminate.
+  - rewrite (sf_invalid _ _ _ _ _ _ _ Hp1 Ho Hv) in E. destruct (q_create q).
+    + rewrite create_session_ff in E.
+      * injection E as _ <- _. discriminate.
+      * split; [rewrite HistInv.cache_delete_ff by exact Hp1; exact Hp1|].
+        rewrite HistInv.cache_delete_ff by exact Hp1. unfold deleted. sst. apply NoDup_remove_keys. apply F1.
+    + injection E as _ <- _. discriminate.
+Qed.
+
+(* the result class of a crash-free request step is that of its Start *)
+Lemma req_body_rc s q script : forall s2 res cks, start s q = (s2, res, cks) ->
+  snd (fst (fst (fst (fst (req_body s q script))))) =
+  match res with Ok (Some _) => RSess | Ok None => RNone | Err e => RErr e | Panic e => RPanic e end.
+Proof.
+  intros s2 res cks E. unfold req_body. rewrite E. destruct res as [[o|]|e|e]; try reflexivity.
+  cbv zeta. destruct (run_script _ _ _ _) as [[s3 sr] cks']. reflexivity.
+Qed.
+
+Lemma step_req_res w r : rq_crash r = None -> forall s2 res cks,
+  start (pre_of w r) (req_of w r) = (s2, res, cks) ->
+  ob_res (snd (step w (HReq r))) =
+  match res with Ok (Some _) => RSess | Ok None => RNone | Err e => RErr e | Panic e => RPanic e end.
+Proof.
+  intros Hcr s2 res cks E. rewrite step_req_eq. cbv zeta. rewrite Hcr.
+  change (match rq_present r with PJar => jar_of (w_jars w) (rq_client r) | PForge c => c end) with (presents w r).
+  change (mkReq (presents w r) (rq_create r) (rq_addr r) (rq_ua r)) with (req_of w r).
+  change (set_tb (set_plan (set_evs (w_st w) []) (rq_plan r)) (rq_tb r)) with (pre_of w r).
+  pose proof (req_body_rc (pre_of w r) (req_of w r) (rq_script r) s2 res cks E) as Hrc.
+  destruct (req_body _ _ _) as [[[[[s3 rc] st0] sr] fin] cks3]. cbn [fst snd] in *. subst rc. reflexivity.
+Qed.
+
+(* what every fault-free, crash-free step shows, from a state satisfying LI *)
+Definition obs_c05 (o : obs) : Prop :=
+  ob_res o <> RErr ERefLoop /\
+  (forall k r, ob_start o = Some (k, r) -> r_ref r = None) /\
+  (forall k r, ob_final o = Some (k, r) -> r_ref r = None).
+
+Lemma obs_c05_void rc s jar : rc <> RErr ERefLoop -> obs_c05 (mk_obs rc None [] [] None s jar).
+Proof. intro H. split; [exact H|]. split; intros; discriminate. Qed.
+
+Theorem step_obs_c05 w h : LI (w_st w) -> ff_hop h -> crash_free h -> obs_c05 (snd (step w h)).
+Proof.
+  intros Hl Hff Hcf. destruct h as [r|d|tbl pl| | |u tbl pl|u tbl pl|c]; cbn [ff_hop crash_free] in *;
+    try (cbn [step snd]; apply obs_c05_void; discriminate).
+  - destruct (step_req_GW Q0 DEL0 FOK0 Q0_qt Q0_new Q0_repl Q0_del Q0_fire w r Hl Hff Hcf Logic.I) as (_ & _ & Hst & Hfin).
+    + intros; exact Logic.I.
+    + intros o _ s ob _ _ _. exact Logic.I.
+    + split; [|split; assumption].
+      pose proof (GW_G Q0 Q0_qt (w_st w) (rq_plan r) (rq_tb r) Hl Hff) as (I1 & K1 & _ & [R1 _]). fold (pre_of w r) in *.
+      destruct (start (pre_of w r) (req_of w r)) as [[s2 res] cks] eqn:E.
+      rewrite (step_req_res w r Hcf s2 res cks E).
+      pose proof (start_no_loop _ _ _ I1 K1 R1 s2 res cks E) as Hn.
+      destruct res as [[o|]|e|e]; try discriminate. intro Hx. injection Hx as ->. apply Hn. reflexivity.
+  - subst pl. cbn [step].
+    pose proof (GW_G Q0 Q0_qt (w_st w) [] tbl Hl eq_refl) as (I1 & _).
+    destruct (logout_user_inv _ _ _ _ u I1) as (s1 & E & _). rewrite E. cbn [snd]. apply obs_c05_void. discriminate.
+  - subst pl. cbn [step].
+    pose proof (GW_G Q0 Q0_qt (w_st w) [] tbl Hl eq_refl) as (I1 & _).
+    destruct (refresh_user_inv _ _ _ _ u I1) as (s1 & E & _). rewrite E. cbn [snd]. apply obs_c05_void. discriminate.
+Qed.
+
+(* lifting a per-step fact to every observation of a history *)
+Lemma run_from_LI (P : obs -> Prop) :
+  (forall w h, LI (w_st w) -> ff_hop h -> crash_free h -> P (snd (step w h))) ->
+  forall hs w, LI (w_st w) -> Forall ff_hop hs -> Forall crash_free hs -> Forall P (run_from w hs).
+Proof.
+  intros HP. induction hs as [|h t IH]; intros w Hl Hff Hcf; [constructor|].
+  rewrite run_from_cons. inversion Hff; inversion Hcf; subst. constructor; [apply HP; assumption|].
+  apply IH; [apply LI_step; assumption | assumption | assumption].
+Qed.
+
+(* C05H_never_placeholder_hist: in every fault-free, crash-free history no
+   response reports ERefLoop and no session handed to a handler (at Start or at
+   the end of the script) is a replaced-ID record *)
+Theorem never_placeholder_hist c hs : Forall ff_hop hs -> Forall crash_free hs -> Forall obs_c05 (run c hs).
+Proof. intros Hff Hcf. apply (run_from_LI obs_c05 step_obs_c05); [apply LI_init | exact Hff | exact Hcf]. Qed.
